@@ -94,8 +94,11 @@ impl BDDSet {
     pub fn complement(&self, other: &Self) -> &Self {
         let new: Rc<BDD<usize>> = self.bdd.borrow().clone();
 
-        self.bdd
-            .replace(self.env.and(new, other.bdd.borrow().clone()));
+        // set difference: keep the elements of self that are not in other
+        self.bdd.replace(
+            self.env
+                .and(new, self.env.not(other.bdd.borrow().clone())),
+        );
 
         self
     }
